@@ -68,6 +68,8 @@ pub fn specs() -> Vec<PropSpec> {
         prop!("C09", Stage { engine: || Box::new(bsv_coll::strings::StrEngine { split_mix: false }), quick_cases: 2_000_000, thorough_cases: 50_000_000 });
         if let Some(p) = v.iter_mut().find(|p| p.id == "C16") {
             p.stages.push(Stage { engine: || Box::new(bsv_coll::strings::StrEngine { split_mix: true }), quick_cases: 500_000, thorough_cases: 12_000_000 });
+            // into_flattened, split_at_spare(_mut) live in engine B2
+            p.stages.push(Stage { engine: || Box::new(bsv_coll::plain::PlainEngine), quick_cases: 400_000, thorough_cases: 10_000_000 });
         }
         prop!("C17", Stage { engine: || Box::new(bsv_lock::LockEngine), quick_cases: 2_000_000, thorough_cases: 50_000_000 });
         prop!("C19", Stage { engine: || Box::new(bsv_pool::PoolEngine), quick_cases: 6_000, thorough_cases: 100_000 });
